@@ -158,6 +158,27 @@ pub fn run(out: &mut Out, seed: u64, thorough: bool, replay: Option<&str>) {
             out.mark_distinct(fnv(show(&p).as_bytes()) ^ pi as u64);
         }
     }
+    // the low and high ends of (seq, value): nothing but non-positive seqs, seq 0 with an empty value,
+    // the extreme integers
+    let lows: Vec<Vec<(i64, Vec<u8>)>> = vec![
+        vec![(-5, vec![1])],
+        vec![(0, vec![])],
+        vec![(0, vec![]), (0, vec![])],
+        vec![(-1, vec![]), (-3, vec![2])],
+        vec![(-3, vec![2]), (-1, vec![])],
+        vec![(i64::MIN, vec![])],
+        vec![(i64::MIN, vec![]), (i64::MIN + 1, vec![])],
+        vec![(i64::MAX, vec![1]), (i64::MAX, vec![2])],
+        vec![(i64::MAX, vec![2]), (i64::MAX, vec![1]), (i64::MIN, vec![9])],
+        vec![(0, vec![]), (-1, vec![0xff])],
+        vec![(-1, vec![0xff]), (0, vec![])],
+    ];
+    for items in &lows {
+        for fl in ["sync", "async"] {
+            out.run(&mut s, format!("mr {fl} {}", show(items)));
+        }
+        out.mark_distinct(fnv(show(items).as_bytes()) ^ 0x10);
+    }
     // random longer streams
     for _ in 0..(if thorough { 300 } else { 40 }) {
         let n = 1 + rng.below(if thorough { 200 } else { 40 }) as usize;
